@@ -242,8 +242,9 @@ func sortInts(a []int) {
 
 func init() {
 	p := &core.Property{
-		ID:   "C01",
-		Rule: "inputs: for every message × slot × declared length (thorough: 0..min(max+1,300) and boundaries, 4095, 65534, 65535; quick: every 5th + boundaries) the string with the element alone and among all other optionals, and every truncation of it; byte-level mutations (truncate, flip, overwrite, insert, delete, splice, unknown identifiers, type-1 look-alikes, extreme lengths, random tails) of random plans and of the repository samples; random strings 0..64 octets behind every valid header; long inputs of 1k/16k/70000 octets in five shapes. Each through PlainNasDecode, GmmMessageDecode and GsmMessageDecode. A solo shard meters ΔTotalAlloc/ΔMallocs per call. Non-trivial = input passes header dispatch (reaches a message decoder); distinct by entry point and bytes.",
+		ID:         "C01",
+		Interleave: []string{"total"},
+		Rule:       "inputs: for every message × slot × declared length (thorough: 0..min(max+1,300) and boundaries, 4095, 65534, 65535; quick: every 5th + boundaries) the string with the element alone and among all other optionals, and every truncation of it; byte-level mutations (truncate, flip, overwrite, insert, delete, splice, unknown identifiers, type-1 look-alikes, extreme lengths, random tails) of random plans and of the repository samples; random strings 0..64 octets behind every valid header; long inputs of 1k/16k/70000 octets in five shapes. Each through PlainNasDecode, GmmMessageDecode and GsmMessageDecode. A solo shard meters ΔTotalAlloc/ΔMallocs per call. Non-trivial = input passes header dispatch (reaches a message decoder); distinct by entry point and bytes.",
 		Assumptions: []string{
 			"'work' is observed through termination (journal + two-stage hang rule) and allocation counters; a purely computational slowdown that allocates nothing and finishes within the watchdog is not observable",
 			"allocation bound: ΔTotalAlloc <= 8 KiB + 64·len + 3·65536, ΔMallocs <= 256 + 4·len, measured with GOMAXPROCS=1 and no other goroutine",
